@@ -668,7 +668,7 @@ Print Assumptions C12_blockflex_engine_example.
    flex_basis that is rewritten (the engine-level class `bfn_elig` excludes it; the algorithm-level theorem does not), and an Example
    that would FAIL if the flex_basis were adjusted along the wrong axis.
    Same caveats as in Props/C04.v: numeric `eqb` keys here vs representation keys in the runner, XQ vs binary32, no compute_root_layout. *)
-From TV Require Model.TaffyEngine Model.TaffyRoot Model.BlockFlexTaffy Model.BlockFlexExample2 Proofs.EngineMap Proofs.BlockFlexTaffy.
+From TV Require Model.TaffyEngine Model.TaffyRoot Model.BlockFlexTaffy Model.BlockFlexExample2 Proofs.EngineMap Proofs.BlockFlexTaffy Proofs.BlockFlexTaffyClass.
 Section FlexTreesK.
   Import TV.Model.Common TV.Model.Leaf TV.Model.Scale TV.Model.FlexAlgBase TV.Model.FlexAlg TV.Model.FlexAlgRel TV.Model.FlexBoxSizing.
   Import TV.Model.Engine TV.Model.EngineRel.
@@ -677,18 +677,17 @@ Section FlexTreesK.
   Import ListNotations.
 
   (* C12_blockflex_engine_rewritten_layouts_partial about the K-run engine; PARTIAL like the engine-level theorems of `FlexTrees`: a node whose
-     flex_basis is a length is left alone by `bfn_to_border_box` (its rewrite depends on the parent's direction); that the rewritten
-     tree is grid-free is a premise only because no lemma says the rewrite keeps `display` *)
+     flex_basis is a length is left alone by `bfn_to_border_box` (its rewrite depends on the parent's direction); the rewritten
+     tree is grid-free because the rewrite keeps `display` (Proofs/BlockFlexTaffyClass.v) *)
   Theorem C12_taffy_engine_rewritten_layouts_partial :
     forall f (t : sk (BFNode XQ)) (w : list nat -> bool) i o T1,
-      sk_goodb t = true -> sk_goodb (sk_map_where (BFNode XQ) bfn_to_border_box w t) = true ->
-      sk_all (BFNode XQ) bfn_ok t ->
+      sk_goodb t = true -> sk_all (BFNode XQ) bfn_ok t ->
       real_memo Num.eqb f (taffy_fresh (sk_map bfn_emb t)) i = Some (o, T1) ->
       exists o' T1',
         real_memo Num.eqb f (taffy_fresh (sk_map bfn_emb (sk_map_where (BFNode XQ) bfn_to_border_box w t))) i = Some (o', T1') /\
         output_rel 1 o o' /\
         Forall2 (flay_rel 1) (lays (TStyle XQ) (FIn XQ) (LayoutOutput XQ) (FLay XQ) T1) (lays (TStyle XQ) (FIn XQ) (LayoutOutput XQ) (FLay XQ) T1').
-  Proof. exact real_engine_rewritten_layouts. Qed.
+  Proof. exact BlockFlexTaffyClass.real_engine_rewritten_layouts'. Qed.
 
   (* non-vacuity of C12_flex_algorithm_box_sizing_blind on ONE flex container run through `alg_run` (Model/BlockFlexExample2.v: row container
      width 200, max-height 90, padding 3, border 1/2/3/1; items with padding AND border, flex-basis 40 / width 60, min-height 20): all three
